@@ -347,7 +347,7 @@ ODD = ['\x00', '\x01', '\x0b', '\x1f', '\x7f', '\x80', '\x85', '\xa0', '\xad', '
        '\u0328', '\u20d7', '\u0378', '\u0379', '\ue000', '\ufffd', '\ufffe', '\uffff', '\U00010000', '\U0001d49c',
        '\U0001f600', '\U000e0001', '\U000f0000', '\U0010ffff', '\u212b', '\u2126', '\u1100\u1161', '\x65\u0301',
        '\x61\u0308\u0301', '\x71\u0301', '\u4e7e', '\u2028', '\u200b', '\ufb01', '\xe9', '\u03b1', '\u03ac', '\u0131',
-       '\u2003', '\u3000']
+       '\u2003', '\u3000', '\ufe0e', '\ufe0f', '\ufe00', '\u200d', '\u200c', '\u2060', '\ufeff', '\u20e3', '\U0001f3fb', '\u034f', '\U000e0100']
 
 # the isolated combining diacritics that `unicode-xml` maps to an accent macro without argument (finding F19)
 F19 = [0x300, 0x301, 0x302, 0x303, 0x304, 0x306, 0x307, 0x308, 0x30a, 0x30b, 0x30c, 0x327, 0x328]
@@ -387,6 +387,16 @@ def cases(tier, rng):
         c['via'] = 'shorthand'
         c['pre'] = [dict(rng.choice(PRE)) for _ in range(rng.randint(1, 2))]
         yield c
+    # 0e. what FOLLOWS (or precedes) a character with a rule: format characters, variation selectors, joiners, combining marks,
+    #     emoji modifiers — each is a character of its own for the encoder (policy / fail-iff clause apply to it)
+    FOLLOW = ['\ufe0e', '\ufe0f', '\ufe00', '\u200d', '\u200c', '\u2060', '\ufeff', '\u20e3', '\U0001f3fb', '\u034f', '\U000e0100', '\u0301', '\u200b', '\x0b', '\x1c', '\xad']
+    HEADS = ['\u2122', '\xa9', '\u2192', '\xe9', '#', '%', '{', '\\', 'x', ' ', '\u03b1', '\u4e7e']
+    for a in HEADS:
+        for b in FOLLOW:
+            for s in (a + b, b + a, a + b + a, a + b + b):
+                t_, p_, q_ = rng.choice(COMBOS)
+                yield encp(s, t_, p_, 'fail')
+                yield encp(s, t_, p_, q_)
     # 0d. the table given as rule objects, the list object shared with encoders built before
     HIST = ['partial', 'partial-use', 'plain-none', 'plain-nao']
     for _ in range(700 if quick else 10000):
